@@ -141,7 +141,7 @@ EXPLORE = {
 EXPLORE_MAXSTATES = 400000
 # one larger scope per property in the quick tier, so that the properties together cover the thorough closures
 EXPLORE_QUICK_EXTRA = {"C04": [(4, 12, 0, "-")], "C01": [(5, 11, 0, "-")], "C02": [(6, 12, 0, "-")], "C06": [(7, 12, 0, "-")],
-                       "C11": [(8, 13, 0, "-")], "C05": [(4, 16, 5, "asc:15")], "C10": [(5, 20, 4, "desc:18")], "C03": [(5, 20, 4, "asc:18")]}
+                       "C11": [(8, 13, 0, "-")], "C05": [(4, 16, 5, "asc:15")], "C10": [(4, 9, 0, "-", "try"), (5, 9, 0, "-", "item"), (4, 16, 3, "asc:15", "try"), (5, 20, 3, "desc:18", "item"), (6, 26, 2, "asc:24", "try")], "C03": [(5, 20, 4, "asc:18")]}
 # the same for the pure-Python map (extract/py_driver.ml --explore; minimum occupancy (cap-1)//2, so the
 # shapes differ from the Rust ones); the Python harness is slower, hence the smaller scopes
 EXPLORE_PY = {
@@ -173,9 +173,9 @@ def explore_shards(prop, cfg, tier, drv, seed=1, runner=None, nsplit=16):
             cap, u, depth, start = 0, sc[1], 0, "-"
             cmd = [drv, "--explore-arena", str(u)]
         else:
-            cap, u, depth, start = sc
+            cap, u, depth, start = sc[:4]
             start = start.replace(":S:", ":%d:" % (seed % 100000))
-            cmd = [drv, "--explore", str(cap), str(u), str(EXPLORE_MAXSTATES), str(depth), start]
+            cmd = [drv, "--explore", str(cap), str(u), str(EXPLORE_MAXSTATES), str(depth), start] + list(sc[4:5])
         r = subprocess.run(cmd, stdout=subprocess.PIPE, stderr=subprocess.PIPE, timeout=1800)
         m = re.search(r"EXPLORE cap=(\d+) keys=(\d+) states=(\d+) transitions=(\d+) longest_path=(\d+) closed=(\w+)", r.stderr.decode())
         if r.returncode != 0 or not m:
